@@ -41,7 +41,8 @@ RULE = ("case = (well-formed encoding, perturbation); encodings come from a "
         "of Parser calls on drawn buffers against a reference reader, "
         "Writer.add against int.to_bytes, every truncation of every list "
         "shape); re-used objects (parse then create*/parse again must "
-        "write like a fresh object); "
+        "write like a fresh object); delegated credentials; known-answer "
+        "encodings of empty vectors; "
         "perturbations: none, every strict prefix, byte appended inside / "
         "outside the outer length, +-1 on every field that looks like a "
         "length prefix, +-1 at every byte offset (blind sweep for "
